@@ -4,6 +4,6 @@ set -eu
 cd "$(dirname "$0")"
 export GOFLAGS=-mod=mod GOPROXY=off GOSUMDB=off GOTOOLCHAIN=local
 mkdir -p bin evidence
-go build -tags verif -o bin/verif ./cmd/verif
+go build -tags verif -o bin/verif ./cmd/verif && go build -tags verif -o bin/drv ./cmd/drv
 go build ./...
 echo setup ok
